@@ -61,7 +61,7 @@ def numeric_twin_spec(spec: NetSpec, subset, pv):
     return replace(spec, links=tuple(links), origins=origins)
 
 
-def compile_sym(spec, sym, compact, declared):
+def compile_sym(spec, sym, compact, declared, more_out=True, kw_all=False):
     """declared: tuple of parameter names in declaration order."""
     XX = getattr(cs, sym)
     # per-link parameters: the SYMBOLS carry the plain parameter name ("rho_crit"), as when links are created in a
@@ -82,31 +82,35 @@ def compile_sym(spec, sym, compact, declared):
     stepP = {k: (syms[k] if k in syms else v) for k, v in DEFAULT_MODEL.items()}
     built.net.step(engine=eng, **stepP)
     other = {k: v for k, v in stepP.items() if k not in syms}
-    F = eng.to_function(built.net, compact=compact, more_out=True, parameters=dict(syms), **other)
+    if kw_all:
+        # the caller re-uses the keyword dictionary of net.step (symbols included) - legal without the flow outputs
+        other = dict(stepP)
+    F = eng.to_function(built.net, compact=compact, more_out=more_out, parameters=dict(syms), **other)
     return F
 
 
-def compile_num(spec, sym, compact, subset, pv):
+def compile_num(spec, sym, compact, subset, pv, more_out=True):
     sp = numeric_twin_spec(spec, subset, pv)
     built = build(sp)
     eng = env.casadi_engine(sym)
     P = {k: (pv[k] if k in subset else v) for k, v in DEFAULT_MODEL.items()}
     built.net.step(engine=eng, **P)
-    return eng.to_function(built.net, compact=compact, more_out=True, **P)
+    return eng.to_function(built.net, compact=compact, more_out=more_out, **P)
 
 
-def check_one(spec, label, st, sym, compact, declared, vecs, problems, pvs=(0, 1)):
+def check_one(spec, label, st, sym, compact, declared, vecs, problems, pvs=(0, 1), more_out=True, kw_all=False):
     vals = [v for _, v in vecs]
-    case = {"spec": spec.describe(), "config": label, "sym": sym, "compact": compact, "declared": list(declared)}
-    tag = f"{sym} compact={compact} parameters={list(declared)}"
+    case = {"spec": spec.describe(), "config": label, "sym": sym, "compact": compact, "declared": list(declared),
+            "more_out": more_out, "kw_all": kw_all}
+    tag = f"{sym} compact={compact} parameters={list(declared)}" + ("" if more_out else " more_out=False, step keywords re-used")
     st.inc("transitions", 2)
     st.inc("functions_compiled")
     try:
-        F = compile_sym(spec, sym, compact, declared)
+        F = compile_sym(spec, sym, compact, declared, more_out, kw_all)
     except Exception as e:  # noqa: BLE001
         problems.append((f"C16/exception/{exc_site(e)}/{type(e).__name__}", f"{tag}: {exc_text(e)}", case))
         return
-    lay = Layout(spec, compact=compact, more_out=True, pnames=declared)
+    lay = Layout(spec, compact=compact, more_out=more_out, pnames=declared)
     names = list(F.name_in())
     if declared:
         if compact <= 0:
@@ -124,8 +128,8 @@ def check_one(spec, label, st, sym, compact, declared, vecs, problems, pvs=(0, 1
     for pi in pvs:
         pv = PV[pi]
         try:
-            Fn = compile_num(spec, sym, compact, set(declared), pv)
-            layn = Layout(spec, compact=compact, more_out=True)
+            Fn = compile_num(spec, sym, compact, set(declared), pv, more_out)
+            layn = Layout(spec, compact=compact, more_out=more_out)
             o_sym = eval_layout(F, lay, vals, {d_: pval(pv, d_) for d_ in declared})
             o_num = eval_layout(Fn, layn, vals)
         except Exception as e:  # noqa: BLE001
@@ -185,6 +189,9 @@ def worker(item):
                     # ... also levels outside {0, 1, 2}: anything <= 0 means 'no aggregation'
                     for sym, compact in (("SX", 0), ("SX", 2), ("MX", 1), ("SX", -1), ("MX", -3)):
                         check_one(spec, label, st, sym, compact, perm, vecs[:2], problems)
+                    # without the flow outputs, re-using the whole keyword dictionary of net.step (symbols included)
+                    for sym, compact in (("SX", 2), ("MX", 0)):
+                        check_one(spec, label, st, sym, compact, perm, vecs[:2], problems, more_out=False, kw_all=True)
         st.outcome((spec.n, len(spec.links), len(problems) == 0))
         if len(st.samples) < 1 and len(spec.links) >= 2:
             st.sample({"config": label, "spec": spec.describe(), "subsets": [list(s) for s in subsets_for(idx, plan["subsets"])[:20]]})
@@ -236,6 +243,7 @@ def replay(case):
     st = Stats()
     problems = []
     vecs = list(valgen.vectors(spec, 0))
-    check_one(spec, "?", st, case["sym"], case["compact"], tuple(case["declared"]), vecs, problems)
+    check_one(spec, "?", st, case["sym"], case["compact"], tuple(case["declared"]), vecs, problems,
+              more_out=case.get("more_out", True), kw_all=case.get("kw_all", False))
     lines = [f"network {spec.short()}"] + [f"  {sig}: {msg}" for sig, msg, c in problems]
     return lines, bool(problems)
